@@ -133,15 +133,26 @@ def gen_cases(rng, tier):
         # group2: differ in one mentioned, separable parameter
         g2 = None
         mentioned = [p["name"] for p in named] if tmpl is None else [f for f in tmpl[1:] if not f.startswith("__")]
-        if mentioned and rng.random() < 0.8:
+        surplus2 = None
+        args_mentioned = has_vp and (tmpl is None or "__args__" in tmpl)
+        if args_mentioned and rng.random() < 0.35:
+            # group2 differs only in the surplus positional arguments (tuples of separable atoms)
+            surplus = [rng.choice([0, 1, True, False, "q", 7]) for _ in range(rng.randint(0, 2))]
+            surplus2 = surplus + [rng.choice([0, False, 1, "z"])] if rng.random() < 0.7 or not surplus else surplus[:-1] + [rng.choice(["zz", 5])]
+            g2 = dict(full)
+        elif mentioned and rng.random() < 0.8:
             pn = rng.choice(mentioned)
             v1, v2 = rng.choice(SEPARABLE)
             full = dict(full); full[pn] = v1
             full2 = dict(full); full2[pn] = v2
             g2 = full2
+            for p in params:  # let group2 omit the parameter: a later call must see the declared default, not an earlier call's value
+                if p["name"] == pn and p["default"] != "<nodefault>" and rng.random() < 0.6:
+                    p["default"] = v2
         params = [dict(p, default=(p["default"] if p["default"] == "<nodefault>" else _jv(p["default"]))) for p in params]
         cases.append({"params": params, "full": _j(full), "surplus": _jl(surplus), "extra": _j(extra), "mode": mode, "tmpl": tmpl,
-                      "full2": _j(g2) if g2 else None, "given": rng.random() < 0.9})
+                      "full2": _j(g2) if g2 is not None else None, "given": rng.random() < 0.9,
+                      "surplus2": _jl(surplus2) if surplus2 is not None else None})
     return cases
 
 
@@ -209,7 +220,10 @@ def run_impl(case):
             if full is None:
                 continue
             fullv = {k: _uv(v) for k, v in full.items()}
-            fs = forms(params, fullv, {k: _uv(v) for k, v in case["extra"].items()}, [_uv(v) for v in case["surplus"]])
+            sur = case["surplus2"] if gname == "g2" and case.get("surplus2") is not None else case["surplus"]
+            fs = forms(params, fullv, {k: _uv(v) for k, v in case["extra"].items()}, [_uv(v) for v in sur])
+            if gname == "g2":  # calls that omit defaulted parameters first: they must not see values left by earlier keyword calls
+                fs = sorted(fs, key=lambda f: (len(f[1]), len(f[0])))
             ref = None
             for args, kwargs in fs[:12]:
                 try:
